@@ -35,6 +35,25 @@ def searchAndFetch (hot cold : List (Nat × ShardRes)) (offset size : Nat) (rev 
       | some (.val docs) => .ok ids total nerr p c docs
     else .ok ids total nerr p c []
 
+/-- `searchAndFetch` when the request context is done after `k` calls of the document iterator's `Next`
+    (`none`: never).  What was read so far is kept; `makeProtoDocs` fills the rest with empty documents. -/
+def searchAndFetchC (hot cold : List (Nat × ShardRes)) (offset size : Nat) (rev : Bool) (hint : Nat)
+    (shouldFetch : Bool) (order : List Nat) (behav : Nat → Option (List Ev)) (cancelAfter : Option Nat) : Full :=
+  match cancelAfter with
+  | none => searchAndFetch hot cold offset size rev hint shouldFetch order behav
+  | some k =>
+    match search hot cold offset size rev with
+    | .err e => .err e
+    | .panic => .panic
+    | .ok ids total nerr p c =>
+      if shouldFetch && !ids.isEmpty then
+        match fetchDocsStreamC (ids.map (toIDS c hint)) order behav k with
+        | none => .fetchErr
+        | some .panic => .panic
+        | some .nofuel => .panic
+        | some (.val docs) => .ok ids total nerr p c docs
+      else .ok ids total nerr p c []
+
 /-! ### proxyapi: `doSearch` + `Search` / `ComplexSearch` - what the client sees -/
 
 inductive ApiOut
